@@ -208,6 +208,7 @@ class ConsumerUnit(Unit):
         st.ghost['terminal_index'] = z3.IntVal(-1)
         st.ghost['main.index'] = z3.IntVal(-1)            # index of the item the main loop is answering
         st.ghost['main.terminal'] = z3.BoolVal(False)     # the main loop (not the final drain) received the terminal item
+        st.ghost['main.fut'] = NONE                        # the future of the item the main loop is answering
         st.ghost['cancelled'] = V.EMPTY
         fn, _, _ = self.load()
         gets = sorted(n.lineno for n in ast.walk(fn) if isinstance(n, ast.Call) and ast.unparse(n.func) == 'tasks.get'
@@ -262,6 +263,7 @@ class ConsumerUnit(Unit):
             s.ghost['terminal_got'] = z3.BoolVal(True)
             s.ghost['terminal_index'] = k
         if is_main:
+            s1.ghost['main.fut'] = f
             for s in outs:
                 s.ghost['main.index'] = k
             s2.ghost['main.terminal'] = z3.BoolVal(True)
@@ -323,7 +325,7 @@ class ConsumerUnit(Unit):
             return z3.BoolVal(True)
         return {0: LoopSpec(inv=main, keep=('tasks', 'to_stop', 'feeder')),
                 1: LoopSpec(inv=drain, keep=('tasks', 'to_stop', 'feeder'),
-                            keep_ghost=('nyield', 'src_exhausted', 'n_pulled', 'main.index', 'main.terminal'))}
+                            keep_ghost=('nyield', 'src_exhausted', 'n_pulled', 'main.index', 'main.terminal', 'main.fut'))}
 
     def setup_thread_pred(self):
         pass
@@ -340,7 +342,7 @@ class ConsumerUnit(Unit):
                                  s.ghost['n_pulled'] == s.ghost['nyield']))
             elif k == 'raise':
                 ex.oblige(s, 'exit(raise): the stop flag is set so the feeder ends [C05]', self.stop_set(s))
-                fcur = s.env.get('fut', s.env.get('t'))
+                fcur = s.ghost['main.fut']
                 from_feeder = z3.And(s.ghost['main.terminal'], p == FAIL, s.ghost['nyield'] == idx)
                 from_future = z3.And(z3.Not(s.ghost['main.terminal']), s.ghost['nyield'] == idx, z3.Not(fut_ok(fcur)), p == fut_exc(fcur),
                                      z3.Or(z3.Not(self.return_exc), z3.Not(V.isinst(p, 'Exception'))))
